@@ -158,6 +158,59 @@ def _b_all(eng, args, kwargs):
 
 
 # ---------------------------------------------------------------------------------------------------------------
+# generator expressions over a sequence of symbolic length whose elements are objects:  (f(x) for x in xs if c(x))
+class LazyGen:
+    """The generator `(elt for target in xs if cond ...)` over a symbolic-length sequence xs (evaluated when the generator is
+    created, as Python does).  Python's semantics: for every position j of xs in order, the conditions are evaluated on xs[j] and,
+    if all hold, `elt` is evaluated on xs[j] and yielded.  The value keeps the real AST nodes and the defining frame;
+    `element(eng, j)` evaluates conditions and element expression for a (symbolic) position j -- clauses describe the whole output
+    by describing an arbitrary position.  Sound for elements without side effects on later elements (the inputs are frozen)."""
+
+    def __init__(self, node, frame, length, getter):
+        self.node, self.frame, self.length, self.getter = node, frame, length, getter
+        self.uid = next_uid()
+
+    def nz(self):
+        return self.length.z if isinstance(self.length, Sym) else zint(self.length)
+
+    def item(self, j):
+        return self.getter(j if isinstance(j, Sym) else Sym(zint(j), "int"))
+
+    def element(self, eng, j):
+        from .engine import Frame
+
+        used(eng, "a generator expression yields, for each item of its (eagerly evaluated) source in order, the element expression on that item if its conditions hold")
+        g = self.node.generators[0]
+        sub = Frame(parent=self.frame, globs=self.frame.globs, func=self.frame.func)
+        x = self.item(j)
+        eng.assign(g.target, x, sub)
+        guard = True
+        for cond in g.ifs:
+            guard = eng.and_(guard, eng.truth(eng.ev(cond, sub)))
+        return x, guard, eng.ev(self.node.elt, sub)
+
+
+class ModelsProxy:
+    """`eng.models` replacement (contract option `models=`): ext_C08's proxy (lists of handles built by a comprehension over a
+    symbolic array) plus lazy generator expressions over such lists"""
+
+    def __getattr__(self, name):
+        return getattr(ext_C08.MODELS, name)
+
+    def comprehension(self, eng, n, fr, kind):
+        gens = n.generators
+        if kind == "gen" and len(gens) == 1 and not gens[0].is_async:
+            first = eng.ev(gens[0].iter, fr)
+            if isinstance(first, SArr) or (isinstance(first, PList) and first.items is None):
+                length, getter = models.as_sequence(eng, first)
+                return LazyGen(n, fr, length, getter)
+        return ext_C08.MODELS.comprehension(eng, n, fr, kind)
+
+
+MODELS = ModelsProxy()
+
+
+# ---------------------------------------------------------------------------------------------------------------
 # np.count_nonzero, rank / select view (the model of pyvc/ext_C08.count_rs without its cross-mask clause), active only for a
 # carrier whose contract sets options["count_model"] = "rank-select"
 def count_rs(eng, mask):
